@@ -222,4 +222,33 @@ def st_triple(ctx: Ctx):
     )
 
 
-PARTS = [Part("triples", check_triple, strategy=st_triple, quick=2000, thorough=100000)]
+def enum_deep(ctx: Ctx):
+    for shape in ("one", "items", "child", "mixed"):
+        for factor in ((2, 4) if ctx.thorough else (2,)):
+            yield {"shape": shape, "factor": factor}
+
+
+def check_deep(data: dict, lab: Labels) -> None:
+    """`at any depth`: chains far deeper than the recursion limit; b is a twin of a, c differs from a
+    only in the origin of the bottom leaf"""
+    sources = og.make_sources()
+    depth = T.deep_depth(data["factor"])
+    a = T.build_chain(depth, data["shape"], sources, ["code", 0, 1, 2])[0]
+    b = T.build_chain(depth, data["shape"], sources, ["code", 0, 1, 2])[0]
+    c = T.build_chain(depth, data["shape"], sources, ["code", 0, 1, 3])[0]
+    lab.tag("deep-chain")
+    lab.sample_class = "deep"
+    require(a.content_id == b.content_id == c.content_id, "harness-deep-content", "")
+    ha = hash(a)
+    require((a == a) is True and (a != a) is False, "eq-reflexive", f"depth {depth}")
+    require((a == b) is True and (b == a) is True and (a != b) is False, "eq-vs-reference",
+            f"depth {depth}: equal twins compare unequal")
+    require((a == c) is False and (c == a) is False and (a != c) is True and (b == c) is False, "eq-vs-reference",
+            f"depth {depth}: an origin difference at the bottom leaf is not seen")
+    require(hash(a) == ha, "hash-constant", "")
+    lab.nontrivial = True
+
+
+PARTS = [Part("triples", check_triple, strategy=st_triple, quick=2000, thorough=100000),
+         Part("deep", check_deep, enumerate=enum_deep,
+              exhaustive_note="4 chain shapes x depth 2x (thorough: and 4x) the recursion limit")]
